@@ -105,7 +105,7 @@ theorem retry_on_timeout (cfg : Cfg) (h : List Input) (hc : (run cfg h).1.comm =
     r.1.comm = .waitDelay ∧ r.1.delayArmed = true ∧ r.1.t3Armed = false := by
   have ha := (cinv_run cfg h).t3.mpr hc
   generalize (run cfg h).1 = s at *
-  obtain ⟨c, l, a, b, n, m, q⟩ := s
+  obtain ⟨c, cn, l, a, b, n, m, q⟩ := s
   simp only at hc ha; subst hc; subst ha
   simp [step, perform_eq, allowed, leaveEffects_eq, enterEffects_eq]
 
@@ -115,7 +115,7 @@ theorem retry_on_refusal (cfg : Cfg) (h : List Input) (hc : (run cfg h).1.comm =
     let r := step cfg (run cfg h).1 (.rx 1 14 w sys (some c))
     r.1.comm = .waitDelay ∧ r.1.delayArmed = true ∧ r.1.t3Armed = false := by
   generalize (run cfg h).1 = s at *
-  obtain ⟨cm, l, a, b, n, m, q⟩ := s
+  obtain ⟨cm, cn, l, a, b, n, m, q⟩ := s
   simp only at hc hl hsys; subst hc; subst hl
   cases c with
   | zero => exact absurd rfl hne
@@ -133,7 +133,7 @@ theorem retry_after_delay (cfg : Cfg) (h : List Input) (hc : (run cfg h).1.comm 
     (s.link = true → r.2 = [.txS1F13 s.nextSys]) ∧ (s.link = false → r.1.queued = s.queued ++ [s.nextSys]) := by
   have ha := (cinv_run cfg h).dly.mpr hc
   generalize (run cfg h).1 = s at *
-  obtain ⟨c, l, a, b, n, m, q⟩ := s
+  obtain ⟨c, cn, l, a, b, n, m, q⟩ := s
   simp only at hc ha; subst hc; subst ha
   cases l <;> simp [step, perform_eq, allowed, leaveEffects_eq, enterEffects_eq, sendS1F13]
 
@@ -156,7 +156,7 @@ theorem leave_on_loss (cfg : Cfg) (h : List Input) :
   have hu := (cinv_run cfg h).up
   rw [run_snoc, run_snoc]
   generalize (run cfg h).1 = s at *
-  obtain ⟨c, l, a, b, n, m, q⟩ := s
+  obtain ⟨c, cn, l, a, b, n, m, q⟩ := s
   constructor
   · cases l
     · intro hcm; simp [step] at hcm; simp_all
@@ -167,6 +167,18 @@ theorem leave_on_loss (cfg : Cfg) (h : List Input) :
 /-- non-vacuity: the history before the loss does end COMMUNICATING -/
 example : (run {} okHistory).1.comm = .communicating ∧ (run {} (okHistory ++ [.linkLost])).1.comm = .notCommunicating := by
   decide +kernel
+
+/-- what `waitfor_communicating` tells the application is the established state, so it is covered by the statement above:
+reported ⇒ a completed exchange on the current link with no loss or disable since -/
+theorem reported_only_after_exchange (cfg : Cfg) (hck : cfg.commackGate = true ∨ cfg.commackReq = 0) (h : List Input)
+    (hr : reportsEstablished (run cfg h).1 = true) : Justified cfg.sysChecked (run cfg h).2 :=
+  established_only_after_exchange_all cfg hck h (by simpa [reportsEstablished] using hr)
+
+/-- … and after a link loss or a disable nothing is reported -/
+theorem not_reported_after_loss (cfg : Cfg) (h : List Input) :
+    reportsEstablished (run cfg (h ++ [.linkLost])).1 = false ∧ reportsEstablished (run cfg (h ++ [.disable])).1 = false := by
+  have := leave_on_loss cfg h
+  simpa [reportsEstablished] using this
 
 /-! ## clause 4: nothing is handed to the callbacks unless established -/
 
